@@ -36,7 +36,7 @@ theorem e1_xexp : XExp .bool e1 :=
   .and _ _ _ _
     (.and _ _ _ _ (.cmp "=" .eq .set .num _ _ rfl (.path _ pAX_pf) (.num _) rfl)
       (.group _ _ (.or _ _ _ _ (.cmp ">" .gt .set .num _ _ rfl (.path _ pBY_pf) (.num _) rfl)
-        (.not .set _ _ (.inr rfl) (.path _ pC_pf)))))
+        (.not .set _ _ (.path _ pC_pf)))))
     (.cmp "=" .eq .set .str _ _ rfl (.path _ pA_pf) (.str _) rfl)
 
 /-- **`C07_main`**: every hypothesis discharged; both sides give `true` -/
@@ -49,6 +49,76 @@ theorem C07_main_instance : ∃ (o : BOut), build (fun _ => true) 100 true false
   have e : Spec.evalTop (F := Int) d0 e1 (.node 0) = .ok (.bool true) := by decide +kernel
   rw [e] at h2; cases h2
   exact ⟨o, hb, h1⟩
+
+/-- `not()` of a number and of a string (after the repair of `notFunc`):
+`not(count(r/c)) and not('') and not(1 - 1) and not(concat('', ''))` — every conjunct is true
+(`count(r/c)` is 0); the defective `notFunc` answered `false` to each of them -/
+def pRC : Ast := .axis (chE "c") (.axis (chE "r") .none)
+def e3 : Ast :=
+  .oper "and"
+    (.oper "and"
+      (.oper "and" (.call "not" "" (.acons (.call "count" "" (.acons pRC .anil)) .anil))
+        (.call "not" "" (.acons (.str "") .anil)))
+      (.call "not" "" (.acons (.oper "-" (.num "1") (.num "1")) .anil)))
+    (.call "not" "" (.acons (.call "concat" "" (.acons (.str "") (.acons (.str "") .anil))) .anil))
+
+theorem e3_parsed : ParsesTo "not(count(r/c)) and not('') and not(1 - 1) and not(concat('', ''))" e3 :=
+  ApiSem.parsesTo_eq (by decide +kernel)
+
+theorem e3_xexp : XExp .bool e3 :=
+  .and _ _ _ _
+    (.and _ _ _ _
+      (.and _ _ _ _
+        (.not .num _ _ (.numE _ (.count _ _ (.cons _ _ (by decide) (.step _ (by decide))))))
+        (.not .str _ _ (.str _)))
+      (.not .num _ _ (.numE _ (.arith "-" _ _ (by decide) (.num _) (.num _)))))
+    (.not .str _ _ (.strE _ (.concat "" [.str "", .str ""] (by decide)
+      (by intro a ha; simp only [List.mem_cons, List.not_mem_nil, or_false] at ha
+          rcases ha with rfl | rfl <;> exact .lit _))))
+
+/-- **`C07_main`** on `not()` of numbers and strings: both sides give `true` -/
+theorem C07_main_not_instance : ∃ (o : BOut), build (fun _ => true) 100 true false e3 {} {} = .ok o ∧
+    evalP (F := Int) d0 {} o.q (.node 0) = .ok (.bool true) := by
+  obtain ⟨o, hb⟩ : ∃ o, build (fun _ => true) 100 true false e3 {} {} = .ok o :=
+    exists_ok (by decide +kernel)
+  obtain ⟨t, h1, h2⟩ := Theorems.C07.C07_main (F := Int) wf_d0 {} rfl hashInj_d0 (.node 0) (by decide)
+    (fun _ => true) 100 false e3 e3_xexp {} o hb
+  have e : Spec.evalTop (F := Int) d0 e3 (.node 0) = .ok (.bool true) := by decide +kernel
+  rw [e] at h2; cases h2
+  exact ⟨o, hb, h1⟩
+
+/-- `not(7 mod 2 - 1)`: `mod` inside the oracle's domain (`C07_main_full`) -/
+def e4 : Ast := .call "not" "" (.acons (.oper "-" (.oper "mod" (.num "7") (.num "2")) (.num "1")) .anil)
+
+theorem e4_parsed : ParsesTo "not(7 mod 2 - 1)" e4 := ApiSem.parsesTo_eq (by decide +kernel)
+
+theorem e4_xexp : XExpG (ArithSem.NumEF d0 ⟨.node 0, 1, 1⟩ Int) StringFns.StrE .bool e4 :=
+  .not .num _ _ (.numE _ (.arith "-" _ _ (by decide)
+    (.mod _ _ (.num _) (.num _) (by
+      intro x y ga gb hx hy
+      rw [PredSem.eval_num] at hx hy
+      cases hx; cases hy
+      decide +kernel))
+    (.num _)))
+
+/-- **`C07_main_full`**: every hypothesis discharged (`ModDom` included); both sides give `true` -/
+theorem C07_main_full_instance : ∃ (o : BOut), build (fun _ => true) 100 true false e4 {} {} = .ok o ∧
+    evalP (F := Int) d0 {} o.q (.node 0) = .ok (.bool true) := by
+  obtain ⟨o, hb⟩ : ∃ o, build (fun _ => true) 100 true false e4 {} {} = .ok o :=
+    exists_ok (by decide +kernel)
+  obtain ⟨t, h1, h2⟩ := Theorems.C07.C07_main_full (F := Int) wf_d0 {} rfl hashInj_d0 (.node 0) (by decide)
+    (fun _ => true) 100 false e4 e4_xexp {} o hb
+  have e : Spec.evalTop (F := Int) d0 e4 (.node 0) = .ok (.bool true) := by decide +kernel
+  rw [e] at h2; cases h2
+  exact ⟨o, hb, h1⟩
+
+/-- **`C07_not_any_type`** (no hypothesis): `not(0)`, `not('')`, `not('x')` -/
+example : callFn (F := Int) d0 {} "not" .nil (.node 0) [.ok (.num 0)] none = .ok (.bool true) :=
+  (Theorems.C07.C07_not_any_type (F := Int) d0 {} .nil (.node 0) ⟨.node 0, 1, 1⟩ (.num 0) none).1
+example : callFn (F := Int) d0 {} "not" .nil (.node 0) [.ok (.str "")] none = .ok (.bool true) :=
+  (Theorems.C07.C07_not_any_type (F := Int) d0 {} .nil (.node 0) ⟨.node 0, 1, 1⟩ (.str "") none).1
+example : callFn (F := Int) d0 {} "not" .nil (.node 0) [.ok (.str "x")] none = .ok (.bool false) :=
+  (Theorems.C07.C07_not_any_type (F := Int) d0 {} .nil (.node 0) ⟨.node 0, 1, 1⟩ (.str "x") none).1
 
 /-- `//a/@x = 1 and not(//b/@y < 2)` (the property's own fragment `BExp`) -/
 def e2 : Ast :=
